@@ -619,7 +619,8 @@ pub fn generate(s: &mut Session, thorough: bool) -> bool {
     // ---- (6) bursts of ≤ 32 contiguous bits: every offset × every length of small chunks
     for k in 0..(2 * scale).min(small_valid.len()) {
         // payload 1 (28 bytes, 3 padding bytes) and payload 6 (32 bytes, 2 padding bytes) first
-        let base = small_valid[[0usize, 5, 3, 11, 8, 14][k % 6] % small_valid.len()].clone();
+        let idx = if k < 6 { [0usize, 5, 3, 11, 8, 14][k] } else { k };
+        let base = small_valid[idx % small_valid.len()].clone();
         let nbits = base.len() * 8;
         for off in 0..nbits {
             for len in 1..=32usize {
